@@ -100,6 +100,13 @@ class ObjStub:
         self.attrs = attrs
 
 
+class Row2D:
+    """one row of a (2, n) vector field that KEPT its leading axis: shape (1, n), not (n,) -- what np.vsplit / np.split(v, 2) /
+    v[0:1] return (the values are those of the component; the shape is not a scalar field's)"""
+    def __init__(self, value, how):
+        self.value, self.how = value, how
+
+
 class VecMask:
     """boolean array of the shape (2, n) of a vector field (a comparison of a vector with something)"""
     def __init__(self, text):
@@ -1625,6 +1632,8 @@ class Interp:
             return r
         if base in ("minimum", "maximum"):
             return self.binary(base, args[0], args[1], ln)
+        if base in ("vsplit", "split", "array_split") and len(args) == 2 and isinstance(args[0], Vec) and args[1] == 2 and kwargs.get("axis", 0) == 0:
+            return [Row2D(args[0].x, "np.%s" % base), Row2D(args[0].y, "np.%s" % base)]
         if base == "clip" and len(args) == 3 and not kwargs:
             # numpy's definition: minimum(a_max, maximum(a, a_min)) -- with a_min > a_max the result is a_max
             lo, hi = args[1], args[2]
